@@ -27,9 +27,10 @@ LIBS = ("mpilot.libraries.eems.basic", "mpilot.libraries.eems.csv", "mpilot.libr
 RULE = ("cases = (parameter slot, block of values, build mode); every value is placed in an Echo program (alone, in a list, in "
         "metadata) built from source or through add_command, serialised, re-loaded and compared; non-trivial = distinct programs")
 ASSUMPTIONS = ["values are compared after cleaning by the declared parameter (nan equals nan); working directory identical for both programs"]
-SYMS = ["a", " ", '"', "'", "\\", ",", "]", ":", "#", "\u00e9", "\n", "\t"]
+SYMS = ["a", " ", '"', "'", "\\", ",", "]", ":", "#", "\u00e9", "\n", "\t", "\U0001f600"]
 NAMED = ["C:\\temp\\new.csv", "/usr/share/data.csv", "He said \"hi\"", "it's", "a, b", "[x]", "k: v", "# no comment", "caf\u00e9 \u20ac", "", "  lead and trail  ",
-         "line1\nline2", "ends\\", "=(", "True", "5", "1e-05", "x" * 60, "\\n", "\\\\server\\share"]
+         "line1\nline2", "ends\\", "=(", "True", "5", "1e-05", "x" * 60, "\\n", "\\\\server\\share",
+         "Habitat score \U0001f600", "\U0001d11e\U00020000", "\u4e2d\u6587", "\x00\x07\x1b", "\x7f\x80\xff", "\u2028 sep", "True Color"]
 INTS = [0, 1, -1, 7, -12, 10 ** 6, 2 ** 53, -(2 ** 63), 10 ** 22]
 FLOATS = [0.5, -0.0, 0.0, 1e-05, 1.5e-07, 1e22, 1e300, 123456789.125, -2.5, 1e16, 1.0, 5e-324, float("inf"), float("-inf"), float("nan"), 0.1, 1 / 3.0]
 BOOLS = [True, False, "true", "false", "TRUE", "False", 0, 1, "0", "1"]
